@@ -1,7 +1,7 @@
 #!/bin/bash
 # usage: try_patch.sh <patch.diff> <PID> [<PID>...]   - run checks against a scratch copy of /repo with the patch applied
 set -u
-patch=$1; shift
+patch=$(readlink -f "$1"); shift
 d=$(mktemp -d /tmp/pgv_try.XXXXXX)
 rsync -a --exclude .git --exclude '*.egg-info' /repo/ $d/repo/
 ( cd $d/repo && git init -q . >/dev/null 2>&1; git apply --whitespace=nowarn "$patch" ) || { echo "PATCH DOES NOT APPLY"; rm -rf $d; exit 3; }
